@@ -427,10 +427,33 @@ func genRegistry(repo, outDir string) {
 			}
 			// track: variable -> (ctor, args) from assignments whose RHS is a call to New*
 			vars := map[string]entry{}
+			// local aliases of selector chains (`builtInCost := b.gasConfig.BuiltInCost`): constructor arguments are reported with the
+			// alias resolved, so that reading a sub-structure once into a local does not change the table
+			alias := map[string]string{}
+			var resolve func(e ast.Expr) string
+			resolve = func(e ast.Expr) string {
+				switch x := e.(type) {
+				case *ast.Ident:
+					if a, ok := alias[x.Name]; ok {
+						return a
+					}
+					return x.Name
+				case *ast.SelectorExpr:
+					return resolve(x.X) + "." + x.Sel.Name
+				}
+				return exprString(bif.fset, e)
+			}
 			for _, st := range fd.Body.List {
 				as, ok := st.(*ast.AssignStmt)
 				if !ok || len(as.Rhs) != 1 {
 					continue
+				}
+				if id, isId := as.Lhs[0].(*ast.Ident); isId && len(as.Lhs) == 1 && as.Tok == token.DEFINE {
+					switch as.Rhs[0].(type) {
+					case *ast.SelectorExpr, *ast.Ident:
+						alias[id.Name] = resolve(as.Rhs[0])
+						continue
+					}
 				}
 				call, ok := as.Rhs[0].(*ast.CallExpr)
 				if !ok {
@@ -440,7 +463,7 @@ func genRegistry(repo, outDir string) {
 				if strings.HasPrefix(fun, "New") && fun != "NewBuiltInFunctionContainer" {
 					var args []string
 					for _, a := range call.Args {
-						args = append(args, exprString(bif.fset, a))
+						args = append(args, resolve(a))
 					}
 					if id, ok := as.Lhs[0].(*ast.Ident); ok {
 						vars[id.Name] = entry{ctor: fun, args: args}
